@@ -1,7 +1,19 @@
 (* C14 — failed transfers in the distributor lose nothing and are made up later. *)
-From C4E Require Import Base Minter Distributor DistrCoins DistrProofs.
+From C4E Require Import Base Minter Distributor DistrCoins DistrProofs Books.
 From C4EProps Require C03.
 Open Scope Z_scope.
+
+(* whatever pattern of bank calls fails (sweeps, payouts, burns; one bit per call), over histories of
+   any length: after every block the recorded remains add up to exactly what the main account holds —
+   nothing that failed to leave is forgotten, nothing is booked that did not arrive *)
+Theorem C14_books_hold_whatever_fails :
+  forall (bk : Z) (Known : dacct -> Prop),
+  (forall a, Known a -> da_key a <> bk) ->
+  (forall a a', Known a -> Known a' -> da_key a = da_key a' -> da_id a = da_id a') ->
+  forall ops w, winv bk Known w -> booked_after false (dw_subs w) = true -> Forall good_op ops ->
+  books_after_every_block w ops.
+Proof. exact history_keeps_books. Qed.
+Print Assumptions C14_books_hold_whatever_fails.
 
 (* a failed payout or burn: the state keeps its full remains (so it is retried in the next block) *)
 Theorem C14_failed_payout_keeps_full_remains :
